@@ -20,7 +20,7 @@ PROPS_MODULE = "Props.C07"
 RULE = ("seeded generator of abstract OJN files: 300-byte header (boundary ints, float32 incl. denormals, strings: ascii / "
         "non-ascii bytes / full width / empty), 3 difficulties, 0..25 packages each in a random merge of per-channel measure-ordered "
         "queues, slot counts 1..192 (powers of two in the exact stream), 0..6 tempo events at any position (measure 0 slot 0, "
-        "mid-measure, after the last note, shuffled packages), taps / long notes spanning packages and measures on all 7 columns, "
+        "mid-measure, exactly at a note's position (same or an equivalent slot fraction), after the last note, shuffled packages), taps / long notes spanning packages and measures on all 7 columns, "
         "autoplay channels, trailing bytes, read() and read_file(); plus a malformed stream (truncation, orphan tail, channel 0, "
         "wrong package counts) checked for correspondence only.  Non-trivial = at least one note or tempo event or a non-default "
         "header string; distinct by hash of the canonical JSON of the case")
@@ -28,21 +28,22 @@ ASSUMPTIONS = [
     "binary64 rounding inside the reader is not modelled: exact stream = powers of two (equality), rounded stream = tolerance 1e-6 ms",
     "float positions i/n + measure preserve order and equality of the exact positions (n <= 192, measure < 2^20: distinct "
     "positions differ by > 2e-5, far above one ulp)",
-    "whether a long note's length is truncated by the item setter depends on a float being exactly integral; in the rounded "
-    "stream the correspondence accepts an integral length less than 1 ms short (the oracle never does)",
     "float32 -> binary64 widening by struct.unpack is exact (IEEE); inf/nan bit patterns are not generated",
 ]
 TRUSTED = ["python struct.pack as the reference encoder of ints/floats (cross-checked in Coq against encode_file on every case)"]
 MANIFEST = dict(
     text="Machine-checked theorems (Coq 8.16.1) about an executable Gallina model of reamber's OJN reader on bytes "
-         "(header by the live layout table, package loop, float32 decode, hold buffer, measure->ms sweep): header decoding inverts "
-         "the format layout, little-endian/float32 decode lemmas, long-note pairing, and the repaired tempo sweep equals "
-         "piecewise-linear integration of beat length over header tempo + all tempo events for all inputs; the sweep of the pinned "
-         "tree is refuted with concrete witnesses.  The model is tied to the code on every run by in-Coq correspondence on generated "
-         "OJN byte strings, and the format oracle ojn_denote is evaluated on the implementation's output.",
-    note="Pinned tree violates C07 (tempo sweep never advances / TypeError without tempo events / long-note length truncated): "
-         "classified as known findings; runner accepts the present or the repaired algorithm, oracle judges the implementation alone. "
-         "Trusted: Coq kernel+VM, generator/serialiser, struct.pack; binary64 rounding measured (1e-6 ms) not proved.",
+         "(header by the live layout table, package loop, float32 decode, hold buffer, measure->ms sweep).  Proved for all inputs: "
+         "read_meta on the laid-out header returns the header's values (300 bytes, live layout = reference layout); "
+         "little-endian int16/int32 decode inverts encode; binary32 decode lemmas (inf/nan rejected, zero, sign); the package parser "
+         "inverts the package layout; the reader's tempo sweep never fails and equals piecewise-linear integration of beat length over "
+         "header tempo + all tempo events (events after the last note and events exactly at a note's position included; strict vs "
+         "non-strict comparison proved immaterial); the oracle specb is sound for the declarative specification.  See docs/C07.md "
+         "for the exact list of composition lemmas proved and what remains evaluated case by case.  The model is tied to the code on "
+         "every run by in-Coq correspondence on generated OJN byte strings (equality with the repaired reader is demanded), and "
+         "the format oracle ojn_denote is evaluated on the implementation's output.",
+    note="The sweep of the tree before commits 9171148/d4c1412 is refuted with concrete witnesses kept in corpus/C07 (now fixed: a regression "
+         "raises a VIOLATION).  Trusted: Coq kernel+VM, generator/serialiser, struct.pack; binary64 rounding measured (1e-6 ms) not proved.",
     technique="Coq proof over executable byte-level model + vm_compute correspondence + reference-interpreter oracle",
     design="4/C07, B.5")
 
@@ -292,7 +293,7 @@ def _level(rng, exact, style):
         if rng.random() < 0.4:
             q.append(_tempo_pkgs(rng, exact, [(0, 0, _slots(rng, exact))]))
         return _merge(rng, q)
-    if style == "ok_today":
+    if style == "two_positions":
         # tempo at position 0 (+ later ones), notes only at position 0 and at one position P after every tempo
         k = rng.choice([1, 1, 2, 3])
         tp = _distinct_positions(rng, exact, k, 3, True)
@@ -328,6 +329,16 @@ def _level(rng, exact, style):
     else:
         k, zero, gt0 = rng.randint(0, 6), rng.random() < 0.4, False
     tp = _distinct_positions(rng, exact, k, start + nm + 2, zero, gt0)
+    if style != "notempo" and rng.random() < 0.6:
+        # tempo events EXACTLY at note positions (same slot fraction, or an equivalent one with another slot count)
+        notes_at = [(p["m"], e[0], p["n"]) for q in queues for p in q for e in p["ev"]]
+        seen = {Fr(m) + Fr(i, n) for m, i, n in tp}
+        for (m, i, n) in rng.sample(notes_at, min(len(notes_at), rng.choice([1, 1, 2, 3]))):
+            if Fr(m) + Fr(i, n) in seen or (gt0 and Fr(m) + Fr(i, n) == 0) or len(tp) >= 6:
+                continue
+            seen.add(Fr(m) + Fr(i, n))
+            f = rng.choice([1, 1, 2, 3]) if not exact else rng.choice([1, 1, 2, 4])
+            tp.append((m, i * f, n * f) if n * f <= 192 else (m, i, n))
     if tp:
         queues.append(_tempo_pkgs(rng, exact, tp))
     if rng.random() < 0.2:
@@ -338,12 +349,10 @@ def _level(rng, exact, style):
 def _case(rng):
     exact = rng.random() < 0.45
     r = rng.random()
-    if r < 0.38:
-        styles = [rng.choice(["ok_today", "ok_today", "empty"]) for _ in range(3)]
-    elif r < 0.45:
+    if r < 0.06:
         styles = ["empty"] * 3
     else:
-        styles = [rng.choice(["general", "general", "general", "notempo", "latefirst", "tempo0", "ok_today", "empty"])
+        styles = [rng.choice(["general", "general", "general", "general", "notempo", "latefirst", "tempo0", "two_positions", "empty"])
                   for _ in range(3)]
     case = {"exact": exact, "hdr": _header(rng, exact), "levels": [_level(rng, exact, s) for s in styles],
             "trail": [rng.randint(0, 255) for _ in range(rng.choice([0, 0, 0, 1, 7, 30]))],
@@ -735,8 +744,9 @@ def _tempo_class(l):
 
 
 def classify(case, out, kind):
-    """A key is returned only when the implementation's output is EXACTLY what the known defect produces
-    (python mirror of the pinned loop / of the repaired loop with the truncating setter)."""
+    """Diagnosis only: all five defects are FIXED in /repo (9171148, d4c1412), findings/C07.json lists them with
+    status "fixed", so a key returned here suppresses nothing -- it labels a VIOLATION as a regression to one of
+    the old behaviours (the output is EXACTLY what the python mirror of the old loop / truncating setter produces)."""
     if kind != "spec" or not case.get("wf"):
         return None
     v = out.get("v")
